@@ -16,6 +16,14 @@ let run (_args : string list) =
       | 'T' -> (match Inst.tps_parse (bytes_of_hex hex) with Move.Ok q -> "OK " ^ enc_abs q | Move.Err -> "ERR" | Move.Panic -> "PANIC")
       | 'F' -> collapse (Drv_c12.ptn_outcome (string_of_hex hex))
       | 'E' -> collapse (Drv_c17.tei_outcome (string_of_hex hex))
-      | _ -> L.nth fs 1      (* chat lines and weight JSON are wrappers around regexp / encoding/json: no model, oracle only *)
+      | 'C' ->
+        (* the strings returned by ParseTell / ParseShout / ParseShoutRoom: the direct functions of BotLine.v; the reference
+           semantics (ordered backtracking search over the same three patterns) must give the same strings *)
+        let l = bytes_of_hex hex in
+        let h = Drv_c11.hex_of_bytes in
+        let ((a, b), (c, d), ((e, f), g)) = (BotLine.parse_tell l, BotLine.parse_shout l, BotLine.parse_shout_room l) in
+        let re_same = (BotLine.re_tell l = (a, b)) && (BotLine.re_shout l = (c, d)) && (BotLine.re_shout_room l = ((e, f), g)) in
+        Printf.sprintf "OK %s,%s;%s,%s;%s,%s,%s%s" (h a) (h b) (h c) (h d) (h e) (h f) (h g) (if re_same then "" else " !re_match-differs")
+      | _ -> L.nth fs 1      (* weight JSON is a wrapper around encoding/json: no model, oracle only *)
     in
     (cls, None, None))
